@@ -264,7 +264,8 @@ from vlib import build
 from excel2pycl import Parser
 d = tempfile.mkdtemp(prefix='c09h_', dir=%(work)r)
 W = [('Main', {'A1': 5, 'A2': 7, 'A3': 'x', 'B1': 1, 'B2': 2, 'B3': 3, 'C1': '=SUMIFS(B1:B3,A1:A3,">1",B1:B3,"<3")', 'C2': '=COUNTIFS(A1:A3,">1",B1:B3,"<3",A1:A3,"<9")',
-              'C3': '=SUM(A1:A2)+MAX(B1:B3)', 'D1': '=IF(A1>3,"p","q")&Other!A1', 'D2': '=AVERAGEIFS(B1:B3,A1:A3,">1",B1:B3,">0")'}), ('Other', {'A1': 'z'})]
+              'C3': '=SUM(A1:A2)+MAX(B1:B3)', 'D1': '=IF(A1>3,"p","q")&Other!A1', 'D2': '=AVERAGEIFS(B1:B3,A1:A3,">1",B1:B3,">0")', 'D3': '=OR(A1>1,B1>2,A2>3,B3>0)', 'E1': '=AND(A1>1,B1>0,A2>3)', 'E2': '=MAX(A1,B2,A2,B3)+MIN(B1,A2)',
+              'E3': '=COUNT(A1:A2,B1:B3,5)&CONCATENATE(A3,B1,"k")'}), ('Other', {'A1': 'z'})]
 p = build.write_xlsx(os.path.join(d, 'w.xlsx'), [(t, build.a1(c)) for t, c in W])
 print(hashlib.sha256(Parser().disable_safety_check().set_excel_file_path(p).get_translation().encode()).hexdigest())
 shutil.rmtree(d, ignore_errors=True)
